@@ -176,6 +176,11 @@ func (p *Peer) SendCheckpoint(index types.ChainIndex, n *consensus.Network, time
 			err = errors.New("checkpoint has wrong index")
 		} else if r.Block.V2.Commitment != r.State.Commitment(r.Block.MinerPayouts[0].Address, r.Block.Transactions, r.Block.V2Transactions()) {
 			err = errors.New("checkpoint has wrong commitment")
+		} else if verr := consensus.ValidateOrphan(r.State, r.Block); verr != nil {
+			// the block's ID and commitment do not cover the miner payout
+			// value or the v2 height, both of which affect the state derived
+			// by applying the block
+			err = fmt.Errorf("checkpoint block is invalid: %w", verr)
 		}
 	}
 	return r.State, r.Block, err
